@@ -593,17 +593,17 @@ theorem utc_core (y1 y2 mo1 mo2 d1 d2 h1 h2 mi1 mi2 : Nat)
     (hd : 1 ≤ digit2 d1 d2 ∧ digit2 d1 d2 ≤
       (if digit2 mo1 mo2 = 2 then (if (if digit2 y1 y2 ≥ 50 then 1900 + digit2 y1 y2 else 2000 + digit2 y1 y2) % 4 = 0 then 29 else 28)
        else if ((digit2 mo1 mo2 = 4 ∨ digit2 mo1 mo2 = 6) ∨ digit2 mo1 mo2 = 9) ∨ digit2 mo1 mo2 = 11 then 30 else 31))
-    (hh : digit2 h1 h2 < 24) (hmi : digit2 mi1 mi2 < 60) :
+    (hh : digit2 h1 h2 < 24) (hmi : digit2 mi1 mi2 < 60) (hsec : Gen.asn1UtcShowsSeconds = true) (s : Nat)
+    (sTxt : Bytes) (hs : Civil.pad 2 s = sTxt) :
     (let yy := digit2 y1 y2
      let parsedYear := if yy ≥ 69 then 1900 + yy else 2000 + yy
      let year := if parsedYear ≥ 2050 then parsedYear - 100 else parsedYear
      if zoneOk [90] = true ∧ 1 ≤ digit2 mo1 mo2 ∧ digit2 mo1 mo2 ≤ 12 ∧ 1 ≤ digit2 d1 d2 ∧
         digit2 d1 d2 ≤ daysInMonth parsedYear (digit2 mo1 mo2) ∧ digit2 h1 h2 < 24 ∧ digit2 mi1 mi2 < 60 then
-       some (Civil.pad 4 year ++ [45] ++ Civil.pad 2 (digit2 mo1 mo2) ++ [45] ++ Civil.pad 2 (digit2 d1 d2) ++ [84] ++
-         Civil.pad 2 (digit2 h1 h2) ++ [58] ++ Civil.pad 2 (digit2 mi1 mi2) ++ [90])
+       some (utcFinish year (digit2 mo1 mo2) (digit2 d1 d2) (digit2 h1 h2) (digit2 mi1 mi2) s [90])
      else none) =
     some ((if digit2 y1 y2 ≥ 50 then [49, 57] else [50, 48]) ++
-      [y1, y2, 45, mo1, mo2, 45, d1, d2, 84, h1, h2, 58, mi1, mi2, 90]) := by
+      [y1, y2, 45, mo1, mo2, 45, d1, d2, 84, h1, h2, 58, mi1, mi2] ++ [58] ++ sTxt ++ [90]) := by
   have hyy : digit2 y1 y2 < 100 := by
     simp only [isDigit, Bool.and_eq_true, decide_eq_true_eq] at hy1 hy2
     unfold digit2; omega
@@ -618,6 +618,7 @@ theorem utc_core (y1 y2 mo1 mo2 d1 d2 h1 h2 mi1 mi2 : Nat)
     clear hd
     (repeat' split at hdd) <;> (repeat' split) <;> omega
   rw [if_pos ⟨hz, hmo.1, hmo.2, hd.1, hdim, hh, hmi⟩]
+  simp only [utcFinish, hsec, Bool.true_eq_false, if_false, if_true, hs]
   rw [pad2 _ _ hmo1 hmo2, pad2 _ _ hd1 hd2, pad2 _ _ hh1 hh2, pad2 _ _ hmi1 hmi2]
   by_cases h50 : digit2 y1 y2 ≥ 50
   · have : (if (if digit2 y1 y2 ≥ 69 then 1900 + digit2 y1 y2 else 2000 + digit2 y1 y2) ≥ 2050 then
@@ -633,7 +634,17 @@ theorem utc_core (y1 y2 mo1 mo2 d1 d2 h1 h2 mi1 mi2 : Nat)
     rw [this, pad4_20 _ _ hy1 hy2]
     simp [h50]
 
-theorem utc_spec (c : Bytes) (hw : utcWellFormed c = true) : utcTimeValue c = some (utcText c) := by
+theorem utcText_11 (y1 y2 mo1 mo2 d1 d2 h1 h2 mi1 mi2 z : Nat) :
+    utcText [y1, y2, mo1, mo2, d1, d2, h1, h2, mi1, mi2, z] =
+      (if digit2 y1 y2 ≥ 50 then [49, 57] else [50, 48]) ++ [y1, y2, 45, mo1, mo2, 45, d1, d2, 84, h1, h2, 58, mi1, mi2] ++ [58] ++
+        [48, 48] ++ [90] := rfl
+theorem utcText_13 (y1 y2 mo1 mo2 d1 d2 h1 h2 mi1 mi2 s1 s2 z : Nat) :
+    utcText [y1, y2, mo1, mo2, d1, d2, h1, h2, mi1, mi2, s1, s2, z] =
+      (if digit2 y1 y2 ≥ 50 then [49, 57] else [50, 48]) ++ [y1, y2, 45, mo1, mo2, 45, d1, d2, 84, h1, h2, 58, mi1, mi2] ++ [58] ++
+        [s1, s2] ++ [90] := rfl
+
+theorem utc_spec (hsec : Gen.asn1UtcShowsSeconds = true) (c : Bytes) (hw : utcWellFormed c = true) :
+    utcTimeValue c = some (utcText c) := by
   unfold utcWellFormed at hw
   simp only [Bool.and_eq_true, Bool.or_eq_true, decide_eq_true_eq] at hw
   obtain ⟨⟨⟨hlen, hlast⟩, hdig⟩, hrest⟩ := hw
@@ -648,10 +659,12 @@ theorem utc_spec (c : Bytes) (hw : utcWellFormed c = true) : utcTimeValue c = so
       Bool.and_eq_true] at hdig
     obtain ⟨a0, a1, a2, a3, a4, a5, a6, a7, a8, a9⟩ := hdig
     simp only [Bool.and_eq_true, decide_eq_true_eq] at hrest
-    simp only [utcTimeValue, utcText, twoDigits_digit _ _ a0 a1, twoDigits_digit _ _ a2 a3, twoDigits_digit _ _ a4 a5,
+    rw [utcText_11]
+    unfold utcTimeValue
+    simp only [twoDigits_digit _ _ a0 a1, twoDigits_digit _ _ a2 a3, twoDigits_digit _ _ a4 a5,
       twoDigits_digit _ _ a6 a7, twoDigits_digit _ _ a8 a9]
     exact utc_core y1 y2 mo1 mo2 d1 d2 h1 h2 mi1 mi2 a0 a1 a2 a3 a4 a5 a6 a7 a8 a9
-      ⟨hrest.1.1.1.1.1.1, hrest.1.1.1.1.1.2⟩ ⟨hrest.1.1.1.1.2, hrest.1.1.1.2⟩ hrest.1.1.2 hrest.1.2
+      ⟨hrest.1.1.1.1.1.1, hrest.1.1.1.1.1.2⟩ ⟨hrest.1.1.1.1.2, hrest.1.1.1.2⟩ hrest.1.1.2 hrest.1.2 hsec 0 [48, 48] (by decide)
   · obtain ⟨y1, y2, mo1, mo2, d1, d2, h1, h2, mi1, mi2, t, rfl, ht⟩ := len10 (n := 3) hlen
     obtain ⟨s1, t1, rfl, ht1⟩ := len_succ (n := 2) ht
     obtain ⟨s2, t2, rfl, ht2⟩ := len_succ (n := 1) ht1
@@ -665,12 +678,16 @@ theorem utc_spec (c : Bytes) (hw : utcWellFormed c = true) : utcTimeValue c = so
     obtain ⟨a0, a1, a2, a3, a4, a5, a6, a7, a8, a9, a10, a11⟩ := hdig
     simp only [Bool.and_eq_true, decide_eq_true_eq] at hrest
     have hz : zoneOk [s1, s2, 90] = false := by simp [zoneOk]
-    simp only [utcTimeValue, utcText, twoDigits_digit _ _ a0 a1, twoDigits_digit _ _ a2 a3, twoDigits_digit _ _ a4 a5,
+    rw [utcText_13]
+    unfold utcTimeValue
+    simp only [twoDigits_digit _ _ a0 a1, twoDigits_digit _ _ a2 a3, twoDigits_digit _ _ a4 a5,
       twoDigits_digit _ _ a6 a7, twoDigits_digit _ _ a8 a9, twoDigits_digit _ _ a10 a11, hz, hrest.2, if_true,
       Bool.false_eq_true, if_false]
     exact utc_core y1 y2 mo1 mo2 d1 d2 h1 h2 mi1 mi2 a0 a1 a2 a3 a4 a5 a6 a7 a8 a9
-      ⟨hrest.1.1.1.1.1.1, hrest.1.1.1.1.1.2⟩ ⟨hrest.1.1.1.1.2, hrest.1.1.1.2⟩ hrest.1.1.2 hrest.1.2
-theorem value_spec (h2 : Gen.asn1ValueIgnoresClass = false) (cls tag : Nat) (c : Bytes) (hc : c.Valid)
+      ⟨hrest.1.1.1.1.1.1, hrest.1.1.1.1.1.2⟩ ⟨hrest.1.1.1.1.2, hrest.1.1.1.2⟩ hrest.1.1.2 hrest.1.2 hsec (digit2 s1 s2) [s1, s2]
+      (pad2 _ _ a10 a11)
+
+theorem value_spec (h2 : Gen.asn1ValueIgnoresClass = false) (h3 : Gen.asn1UtcShowsSeconds = true) (cls tag : Nat) (c : Bytes) (hc : c.Valid)
     (hw : wfPrimContent cls tag c = true) : valueOf cls tag false c = valueText cls tag c := by
   unfold valueOf valueText
   simp only [h2]
@@ -697,7 +714,7 @@ theorem value_spec (h2 : Gen.asn1ValueIgnoresClass = false) (cls tag : Nat) (c :
       simp only [List.all_eq_true] at hw'
       simp only [List.all_eq_true, not_false_eq_true, true_and]
       rw [if_pos hw']
-    · rw [utc_spec c hw]; simp
+    · rw [utc_spec h3 c hw]; simp
     · split <;> first | rfl | simp_all
   · simp [hcls]
 
@@ -722,35 +739,35 @@ theorem valueOf_empty_cons (h2 : Gen.asn1ValueIgnoresClass = false) (cls tag : N
   · simp [hc, hexEncode]
 
 mutual
-theorem rawInfo_toRaw (h2 : Gen.asn1ValueIgnoresClass = false) : (t : Tlv) → Wf t → rawInfo (toRaw t) = renderSpec t
+theorem rawInfo_toRaw (h2 : Gen.asn1ValueIgnoresClass = false) (h3 : Gen.asn1UtcShowsSeconds = true) : (t : Tlv) → Wf t → rawInfo (toRaw t) = renderSpec t
   | .prim cls tag c => fun hw => by
     simp only [Wf] at hw
-    simp only [toRaw, rawInfo, renderSpec, tagName_eq, value_spec h2 cls tag c hw.2.2.1 hw.2.2.2.2]
+    simp only [toRaw, rawInfo, renderSpec, tagName_eq, value_spec h2 h3 cls tag c hw.2.2.1 hw.2.2.2.2]
   | .cons cls tag [] => fun hw => by
     simp only [Wf] at hw
     simp only [toRaw, toRawList, rawInfo, renderSpec, tagName_eq, encList, valueOf_empty_cons h2 cls tag hw.2.2.1,
       List.append_nil]
   | .cons cls tag (k :: ks) => fun hw => by
     simp only [Wf] at hw
-    have ih := rawInfos_toRawList h2 (k :: ks) hw.2.2.2.2
+    have ih := rawInfos_toRawList h2 h3 (k :: ks) hw.2.2.2.2
     simp only [toRaw, toRawList, rawInfo, renderSpec, tagName_eq] at ih ⊢
     rw [ih]
-theorem rawInfos_toRawList (h2 : Gen.asn1ValueIgnoresClass = false) : (ts : List Tlv) → WfList ts →
+theorem rawInfos_toRawList (h2 : Gen.asn1ValueIgnoresClass = false) (h3 : Gen.asn1UtcShowsSeconds = true) : (ts : List Tlv) → WfList ts →
     rawInfos (toRawList ts) = renderSpecList ts
   | [] => fun _ => by simp only [toRawList, rawInfos, renderSpecList]
   | t :: ts => fun hw => by
     simp only [WfList] at hw
-    simp only [toRawList, rawInfos, renderSpecList, rawInfo_toRaw h2 t hw.1, rawInfos_toRawList h2 ts hw.2]
+    simp only [toRawList, rawInfos, renderSpecList, rawInfo_toRaw h2 h3 t hw.1, rawInfos_toRawList h2 h3 ts hw.2]
 end
 
 theorem dump_roundtrip (h1 : Gen.asn1RecurseIntoEmpty = false) (h2 : Gen.asn1ValueIgnoresClass = false)
-    (t : Tlv) (h : Wf t) : dump (enc t) = some (report t) := by
+    (h3 : Gen.asn1UtcShowsSeconds = true) (t : Tlv) (h : Wf t) : dump (enc t) = some (report t) := by
   have hl := parse_list h1 [t] ((enc t).length + 1) (by simp) (by simp only [WfList]; exact ⟨h, trivial⟩)
     (by simp only [encList, List.append_nil]; omega)
   simp only [encList, List.append_nil] at hl
   unfold dump
   rw [hl]
-  simp only [toRawList, rawInfos, rawInfo_toRaw h2 t h, report]
+  simp only [toRawList, rawInfos, rawInfo_toRaw h2 h3 t h, report]
 
 theorem isASN1_complete (h1 : Gen.asn1RecurseIntoEmpty = false) (t : Tlv) (h : Wf t) : isASN1 (enc t) = true := by
   have hl := parse_list h1 [t] ((enc t).length + 1) (by simp) (by simp only [WfList]; exact ⟨h, trivial⟩)
